@@ -426,3 +426,95 @@ def axioms(terms, pairwise=True, structural=True, deep_gen=1):
     inst = Instantiator(pairwise=pairwise, structural=structural, deep_gen=deep_gen)
     ax = inst.new_axioms(list(terms))
     return ax, inst
+
+
+# --------------------------------------------------------------------------
+# CEGAR: true lemmas at the argument values of a candidate model
+
+_INC = {"sqrt", "exp", "log", "arctan", "erf", "arcsin", "cbrt", "erfinv", "Phi"}
+_DEC = {"arccos"}
+_DOMAIN = {
+    "sqrt": lambda v: v >= 0,
+    "log": lambda v: v > 0,
+    "arcsin": lambda v: -1 <= v <= 1,
+    "arccos": lambda v: -1 <= v <= 1,
+    "erfinv": lambda v: -1 < v < 1,
+}
+
+
+def _rat(m, t):
+    v = m.eval(t, model_completion=True)
+    if z3.is_rational_value(v):
+        return v.numerator_as_long() / v.denominator_as_long(), v
+    if z3.is_algebraic_value(v):
+        a = v.approx(30)
+        return a.numerator_as_long() / a.denominator_as_long(), None
+    return None, None
+
+
+def point_lemmas(m, solver, limit=40):
+    """for every theory application in the solver's assertions: if the model's value of the application is
+    not (within 1e-9 relative) the true function value at the model's argument, return a true lemma that
+    excludes it (half-space for monotone functions, point lemma otherwise)"""
+    from fractions import Fraction
+
+    apps = collect_apps(list(solver.assertions()), {}, [])
+    out = []
+    for a in apps:
+        fn = a.decl().name()
+        if fn not in CONCRETE or a.num_args() > 2:
+            continue
+        vals = []
+        exact = []
+        for i in range(a.num_args()):
+            f, ex = _rat(m, a.arg(i))
+            vals.append(f)
+            exact.append(ex)
+        if any(v is None for v in vals):
+            continue
+        if fn in _DOMAIN and not _DOMAIN[fn](vals[0]):
+            continue
+        if fn == "pow" and not (vals[0] > 0):
+            continue
+        try:
+            true = CONCRETE[fn](*vals)
+        except Exception:
+            continue
+        if true != true or true in (math.inf, -math.inf):
+            continue
+        got, _ = _rat(m, a)
+        if got is None:
+            continue
+        eps = 1e-9 * max(1.0, abs(true))
+        if abs(got - true) <= eps:
+            continue
+        lo = z3.RealVal(str(Fraction(true - eps)))
+        hi = z3.RealVal(str(Fraction(true + eps)))
+        x = a.arg(0)
+        # argument value as an exact rational when available, else a tight rational enclosure
+        if a.num_args() == 1:
+            vx = exact[0] if exact[0] is not None else None
+            if vx is not None and fn in _INC:
+                out += [z3.Implies(x <= vx, a <= hi), z3.Implies(x >= vx, a >= lo)]
+            elif vx is not None and fn in _DEC:
+                out += [z3.Implies(x <= vx, a >= lo), z3.Implies(x >= vx, a <= hi)]
+            elif vx is not None:
+                out.append(z3.Implies(x == vx, z3.And(a >= lo, a <= hi)))
+            else:
+                # algebraic argument: use the monotone enclosure with rational brackets
+                d = 1e-12 * max(1.0, abs(vals[0]))
+                xl, xh = z3.RealVal(str(Fraction(vals[0] - d))), z3.RealVal(str(Fraction(vals[0] + d)))
+                try:
+                    tl, th = CONCRETE[fn](vals[0] - d), CONCRETE[fn](vals[0] + d)
+                except Exception:
+                    continue
+                lo2 = z3.RealVal(str(Fraction(min(tl, th) - eps)))
+                hi2 = z3.RealVal(str(Fraction(max(tl, th) + eps)))
+                if fn in _INC | _DEC:
+                    out.append(z3.Implies(z3.And(x >= xl, x <= xh), z3.And(a >= lo2, a <= hi2)))
+        else:
+            if all(e is not None for e in exact):
+                out.append(z3.Implies(z3.And([a.arg(i) == exact[i] for i in range(a.num_args())]), z3.And(a >= lo, a <= hi)))
+        if len(out) >= limit:
+            break
+    return out
